@@ -197,7 +197,45 @@ def _exec(node):
     t2 = ast.parse(to_code(t1))
     if ast.dump(t1) != ast.dump(t2):
         raise AssertionError("unparse/re-parse is not stable")
+    if not _tree_identity(node, t1.body[0]):
+        raise TreeMismatch("the emitted tree is not the tree of its own source text")
     return ns, src, t1
+
+
+class TreeMismatch(Exception):
+    pass
+
+
+class _Neg(ast.NodeTransformer):
+    """the parser's form of a negative number: UnaryOp(USub, Constant(abs)) (the only node the unparser writes differently)"""
+
+    def visit_Constant(self, n):
+        if type(n.value) in (int, float) and (n.value < 0 or (n.value == 0 and str(n.value).startswith("-"))):
+            return ast.UnaryOp(op=ast.USub(), operand=ast.Constant(value=-n.value, kind=None))
+        return n
+
+
+def _tree_eq(a, b):
+    if isinstance(a, ast.AST):
+        if type(a) is not type(b):
+            return False
+        for f in a._fields:
+            if f in ("kind", "type_comment", "type_params", "ctx"):
+                continue
+            if not _tree_eq(getattr(a, f, None), getattr(b, f, None)):
+                return False
+        return True
+    if isinstance(a, (list, tuple)) or isinstance(b, (list, tuple)):
+        a, b = list(a or ()), list(b or ())
+        return len(a) == len(b) and all(_tree_eq(x, y) for x, y in zip(a, b))
+    return type(a) is type(b) and a == b
+
+
+def _tree_identity(node, reparsed):
+    """C06: 'survives unparse/re-parse with an identical syntax tree' - the EMITTED tree against the tree of its own text"""
+    from copy import deepcopy
+
+    return _tree_eq(_Neg().visit(deepcopy(node)), reparsed)
 
 
 def _norm_docstrings(tree):
